@@ -41,6 +41,53 @@ def ylLoad (repo : List ModSrc) (yl : YlData) (cfg : Cfg := {}) : Except Nat Ctx
     | (.ok _, s') => .ok { s' with explicit := false }
     | (.error e, _) => .error e
 
+/-! ## the complete `yang-library` container (`ly_ctx_get_yanglib_data`, revision 2019-01-04 part)
+
+`module-set/module` (implemented modules: name, revision, `submodule` list by `ylib_submodules`, `feature` leaf-list by
+`ylib_feature`, `deviation` leaf-list by `ylib_deviation` — the names in `deviated_by`, in array order),
+`module-set/import-only-module` (name, revision, submodules; `ylib_feature` / `ylib_deviation` return at once for a module
+that is not implemented) and `content-id`.  Lists in context order.  `ly_ctx_new_yldata` reads back name, revision and
+features of `module` only (`YlFull.core`). -/
+
+structure YlMod where
+  name : Bytes
+  rev : Bytes
+  subs : List Bytes          -- submodule names
+  feats : List Bytes
+  devs : List Bytes          -- `deviation`: names of the modules in `deviated_by`
+deriving DecidableEq, Repr, Inhabited
+
+structure YlImp where
+  name : Bytes
+  rev : Bytes
+  subs : List Bytes
+deriving DecidableEq, Repr, Inhabited
+
+structure YlFull where
+  modules : List YlMod
+  importOnly : List YlImp
+  contentId : Nat            -- the caller's `content_id_format` argument; context.h recommends the change counter
+deriving DecidableEq, Repr, Inhabited
+
+def ylMod (m : Mod) : YlMod :=
+  { name := m.src.name, rev := m.src.rev, subs := m.src.subNames, feats := m.enabledNames, devs := m.devBy.map (·.1) }
+
+def ylImp (m : Mod) : YlImp := { name := m.src.name, rev := m.src.rev, subs := m.src.subNames }
+
+/-- `ly_ctx_get_yanglib_data(ctx, &root, "%u", ly_ctx_get_change_count(ctx))` -/
+def ylExport (s : Ctx) : YlFull :=
+  { modules := (s.mods.filter (·.implemented)).map ylMod,
+    importOnly := (s.mods.filter (fun m => !m.implemented)).map ylImp,
+    contentId := s.changeCount.toNat }
+
+/-- what `ly_ctx_new_yldata` reads -/
+def YlFull.core (y : YlFull) : YlData :=
+  { modules := y.modules.map fun e => { name := e.name, rev := e.rev, feats := e.feats },
+    importOnly := y.importOnly.map fun e => (e.name, e.rev) }
+
+theorem ylExport_core (s : Ctx) : (ylExport s).core = ylGen s := by
+  simp [ylExport, YlFull.core, ylGen, ylMod, ylImp, List.map_map, Function.comp_def, Mod.key]
+
 /-- the implemented modules with revision and enabled features, as a yang-library client sees the schema -/
 def implView (s : Ctx) : List (Bytes × Bytes × List Bytes) :=
   (s.mods.filter (·.implemented)).map fun m => (m.src.name, m.src.rev, m.enabledNames)
